@@ -532,49 +532,59 @@ func (p *pep440Extension) compare(e extension) int {
 		return 0
 	}
 
-	// We have the same numbers. We now compare attachments. Their order is:
-	//	devN aN bN rcN <empty> postN
-	// and within each item, ordered by N. Also, a dev can appear along with
-	// any other. If one version has a higher rank than the other, that determines
-	// their ordering.
-	pRank := pExt.rank()
-	qRank := qExt.rank()
-	if pRank != qRank {
-		return sgn(pRank, qRank)
+	// We have the same numbers. We now compare attachments, in the order
+	// PEP 440 gives them: pre-release, post-release, dev-release, local.
+	// A dev-release with neither pre nor post sorts before any pre-release
+	// (1.0.dev1 < 1.0a1); otherwise no pre-release sorts after any.
+	if s := sgn(pExt.preRank(), qExt.preRank()); s != 0 {
+		return s
 	}
-
-	// Same rank, so now we must look at the contents of the extension.
-	switch pRank {
-	case pep440Alpha, pep440Beta, pep440Prerelease:
+	if pExt.pre != "" { // Then qExt has the same one.
 		if s := sgn(pExt.preNum, qExt.preNum); s != 0 {
 			return s
 		}
-		fallthrough
-	case pep440Local:
-		if s := pep44CompareLocal(pExt.local, qExt.local); s != 0 {
-			return s
-		}
-		fallthrough
-	case pep440Post:
-		if s := sgn(pExt.postNum, qExt.postNum); s != 0 {
-			return s
-		}
 	}
 
-	// Dev can attach to anything (although we've never seen one on a post).
-	if pExt.devPresent || qExt.devPresent {
-		if pExt.devPresent != qExt.devPresent {
-			if pExt.devPresent {
-				return -1 // Dev is before pre, empty, or post.
-			}
+	// No post-release is before any post-release.
+	if pExt.postPresent != qExt.postPresent {
+		if pExt.postPresent {
 			return 1
 		}
-		if s := sgn(pExt.devNum, qExt.devNum); s != 0 {
-			return s
-		}
+		return -1
+	}
+	if s := sgn(pExt.postNum, qExt.postNum); s != 0 {
+		return s
 	}
 
-	return 0
+	// Dev is before no dev, whatever it is attached to.
+	if pExt.devPresent != qExt.devPresent {
+		if pExt.devPresent {
+			return -1
+		}
+		return 1
+	}
+	if s := sgn(pExt.devNum, qExt.devNum); s != 0 {
+		return s
+	}
+
+	// No local version is before any local version.
+	return pep44CompareLocal(pExt.local, qExt.local)
+}
+
+// preRank orders the pre-release letters, with the two cases of a missing
+// pre-release at either end.
+func (p *pep440) preRank() int {
+	switch {
+	case p.pre == "a":
+		return pep440Alpha
+	case p.pre == "b":
+		return pep440Beta
+	case p.pre == "rc":
+		return pep440Prerelease
+	case p.devPresent && !p.postPresent:
+		return pep440Dev
+	}
+	return pep440Empty
 }
 
 // pep440CompareLocal compares the local strings elementwise.
@@ -582,6 +592,9 @@ func (p *pep440Extension) compare(e extension) int {
 func pep44CompareLocal(pl, ql string) int {
 	if pl == ql {
 		return 0
+	}
+	if pl == "" || ql == "" {
+		return sgn(len(pl), len(ql))
 	}
 	// Numbers dominate strings, and are evaluated numerically.
 	// Strings are ASCII-only and compared case-insensitively.
@@ -637,5 +650,5 @@ func p440compareLocalElem(a, b string) int {
 		bn, _ := strconv.ParseUint(b, 10, 64)
 		return sgnu64(an, bn)
 	}
-	return sgnStr(a, b)
+	return sgnStr(strings.ToLower(a), strings.ToLower(b))
 }
